@@ -70,11 +70,9 @@ def cases(unit):
     elif fam == 'many' and unit.get('wide'):
         yield {'fam': 'wide', 'n': 300}
         yield {'fam': 'wide', 'n': 129}
-        if unit.get('tier') != 'quick':
-            yield {'fam': 'wide', 'n': 65544}
-            yield {'fam': 'churn', 'n': 40000}
-        else:
-            yield {'fam': 'churn', 'n': 600}
+        yield {'fam': 'wide', 'n': 65544}
+        yield {'fam': 'churn', 'n': 40000}
+        yield {'fam': 'churn', 'n': 600}
     elif fam == 'many':
         # many groups: the j-th new inner group belongs to parent bit j of the mask (all 2^n assignments)
         for mask in range(2 ** unit['groups']):
@@ -140,7 +138,10 @@ def run_case(case, acc):
         acc.evals += 1
         acc.events += len(items) + 1
         acc.traces += 1
-        exp = harness.model_all(spec, items)
+        groups = {}
+        for x in items:                       # keys are plain ints here: a dict gives the partition by equality
+            groups.setdefault(1000 + x % n, []).append(x)
+        exp = list(groups.values())
         out = []
         sp = harness.status_problem(sink)
         if sp:
